@@ -8,14 +8,15 @@
 extern "C" int nanosleep(const struct timespec* req, struct timespec* rem)
 {
   if (!verif::sim::g_active) return static_cast<int>(::syscall(SYS_nanosleep, req, rem));
-  verif::sim::virtual_sleep();
+  verif::sim::virtual_sleep(req ? static_cast<uint64_t>(req->tv_sec) * 1000000000ull + static_cast<uint64_t>(req->tv_nsec) : 0);
   return 0;
 }
 
 extern "C" int clock_nanosleep(clockid_t clk, int flags, const struct timespec* req, struct timespec* rem)
 {
   if (!verif::sim::g_active) return static_cast<int>(::syscall(SYS_clock_nanosleep, clk, flags, req, rem));
-  verif::sim::virtual_sleep();
+  // (relative sleeps only: libstdc++'s sleep_for does not use TIMER_ABSTIME)
+  verif::sim::virtual_sleep((req && flags == 0) ? static_cast<uint64_t>(req->tv_sec) * 1000000000ull + static_cast<uint64_t>(req->tv_nsec) : 0);
   return 0;
 }
 
